@@ -390,7 +390,21 @@ def run(ctx):
         check("K8|expansion-result-contains", got == {("Rewritten", "contains"), ("Unmodified", "eq")}, er[0].loc(), "ExpansionResult::contains(InstructionIndex) is not {Unmodified(i) -> i == other, Rewritten(r) -> r.contains(other)}: %s" % sorted(got, key=str), "-")
     else:
         res.missing_anchor("ExpansionResult::contains for InstructionIndex")
-    for owner in ("calibration::CalibrationExpansion", "defgate_sequence_expansion::DefGateSequenceExpansion"):
+    range_contains_rule(db, res, ("calibration::CalibrationExpansion", "defgate_sequence_expansion::DefGateSequenceExpansion"))
+    res.count("sites", res.sites, floor=30)
+    res.explanation = "Provenance of every index written into calibration source maps (origin expressions + dominance for read-before/after-write), control dependence of every entry push, the guard comparators and read/write order of remove_target_index against its index-shift specification, and mirror/dispatch tables of the query functions."
+    res.assumptions = ["Vec::retain_mut keeps order; Range::contains / is_empty as documented"]
+    return res
+
+
+def range_contains_rule(db, res, owners):
+    """K8: an expansion record contains an InstructionIndex iff its half-open `range` does.  Shared by C19 and C21."""
+    def check(key, ok, loc, msg, manifest, detail=None):
+        res.site(key, True, dict(detail or {}, verdict="ok" if ok else "VIOLATION"))
+        if not ok:
+            res.find(key, loc, msg, manifest)
+
+    for owner in owners:
         cc = [x for x in db.fns if x.name == "contains" and x.path.startswith("<quil_rs::program::" + owner) and "InstructionIndex>>" in x.path]
         if len(cc) == 1:
             e = fn_expr_operand(cc[0], {"m": {"l": 0, "pr": []}})
@@ -398,7 +412,3 @@ def run(ctx):
             check("K8|range-contains|" + owner.rsplit("::", 1)[-1], ok, cc[0].loc(), "%s::contains(InstructionIndex) is not range.contains(index)" % owner, "-")
         else:
             res.missing_anchor(owner + "::contains")
-    res.count("sites", res.sites, floor=30)
-    res.explanation = "Provenance of every index written into calibration source maps (origin expressions + dominance for read-before/after-write), control dependence of every entry push, the guard comparators and read/write order of remove_target_index against its index-shift specification, and mirror/dispatch tables of the query functions."
-    res.assumptions = ["Vec::retain_mut keeps order; Range::contains / is_empty as documented"]
-    return res
